@@ -7,5 +7,5 @@ CONSTANTS
   NBug = "none"
   NVSpace = "tiny"
   NCompoundV = "tiny"
-  NKinds = {"isinstance", "issubclass", "typeis", "typeguard", "is", "eq", "in", "truthy", "len", "cmp", "c_isinstance", "c_isvalue", "match", "matchseq", "not", "and", "or", "deep"}
+  NKinds = {"isinstance", "issubclass", "typeis", "typeguard", "is", "eq", "in", "truthy", "len", "cmp", "lenr", "c_isinstance", "c_isvalue", "match", "matchseq", "not", "and", "or", "deep"}
 CHECK_DEADLOCK FALSE
